@@ -719,7 +719,15 @@ class Interp:
                 if isinstance(x, ast.Call):
                     first = ast.unparse(x.func)
                     break
-            cond = V("bool", T("raises", name, first or "?"), shape=())
+            argt = T("const", None)
+            for x in ast.walk(ast.Module(body=s.body, type_ignores=[])):
+                if isinstance(x, ast.Call):
+                    if x.args and isinstance(x.args[0], ast.Name):
+                        env = pre.frames[-1]
+                        if x.args[0].id in env:
+                            argt = env[x.args[0].id].term
+                    break
+            cond = V("bool", T("raises", name, first or "?", argt), shape=())
             t = self.truth(cond, h, st)
             if t is None and self.assume is None:
                 t = None
